@@ -37,8 +37,10 @@ TRUSTED = ['modelled, not verified (hypothesis tmpl_linear of the theorems; chec
            'templates emit the content followed by the footnotes of the file',
            'harness/render_docs.py: the walker that reads the digested DOM (Model input) and html.parser reading the output files',
            'Model/Filenames.v (property C15) is used for the name generator; which of the three repairs of Filenames.py the code has is probed at run time']
-ASSUMPTIONS = ['no filenameoverride / splitlevel / urloverride attributes; no sectioning unit inside a footnote or a title; '
-               'output file names have no directory part']
+PREMISES = {}
+ASSUMPTIONS = rd.Counted(['no filenameoverride / splitlevel / urloverride attributes; no sectioning unit inside a footnote or a title; '
+                          'output file names have no directory part'], PREMISES,
+                         'premises of the end-to-end theorem C13_split_by_level (decision procedure hyps_b, evaluated by the extracted Model) hold on %d of %d rendered cases of this run')
 CASE_TIMEOUT = 150
 
 EXC_K = {'IndexError': 3}
@@ -252,6 +254,9 @@ def oracle(case, rec):
 
 
 def judge(case, io, mo):
+    mo, flag = rd.unwrap(mo)
+    if flag is not None and io[:1] == [0]:
+        PREMISES[flag] = PREMISES.get(flag, 0) + 1
     rec = rd.record(case, render_if_missing=False)
     if io[:1] in (['hang'], ['harness-error']) or rec is None:
         return dict(violation=False, key='C13:no-render', what='no render record: %s' % (io,))
